@@ -1,5 +1,6 @@
 import BiotiteModel.Proofs.C02Slice
 import BiotiteModel.Gen.C02
+import BiotiteModel.Proofs.C02Source
 /-!
 # C02 — property theorems (a bond list is a set of undirected typed bonds with safe indices)
 
@@ -799,6 +800,97 @@ theorem C02_gen_index_guard :
     Gen.C02.toPositiveIndexSkeleton =
       ["if index < 0:", "pos_index = <uint32> (array_length + index)", "if pos_index < 0:", "return pos_index",
        "else:", "if <uint32> index >= array_length:", "return <uint32> index"] := by
+  decide
+
+/-! ## The source text of every modelled function is the one the model was written against (pass 7)
+
+`Gen.C02.sig_*` / `body_*` are regenerated from `bonds.pyx` on every run; `Source.*` is the frozen text next to the model.
+A changed guard, comparison operator, constant, fill value, dtype, default argument, C parameter type, helper call, order of
+checks or steps, exception class or `except` clause in function `f` breaks `C02_gen_fn_f` — for every input at once. -/
+
+theorem C02_gen_fn_BondType_without_aromaticity : Gen.C02.sig_BondType_without_aromaticity = Source.sig_BondType_without_aromaticity ∧ Gen.C02.body_BondType_without_aromaticity = Source.body_BondType_without_aromaticity := ⟨rfl, rfl⟩
+theorem C02_gen_fn_dunder_initdunder : Gen.C02.sig_dunder_initdunder = Source.sig_dunder_initdunder ∧ Gen.C02.body_dunder_initdunder = Source.body_dunder_initdunder := ⟨rfl, rfl⟩
+theorem C02_gen_fn_concatenate : Gen.C02.sig_concatenate = Source.sig_concatenate ∧ Gen.C02.body_concatenate = Source.body_concatenate := ⟨rfl, rfl⟩
+theorem C02_gen_fn_dunder_copy_createdunder : Gen.C02.sig_dunder_copy_createdunder = Source.sig_dunder_copy_createdunder ∧ Gen.C02.body_dunder_copy_createdunder = Source.body_dunder_copy_createdunder := ⟨rfl, rfl⟩
+theorem C02_gen_fn_dunder_copy_filldunder : Gen.C02.sig_dunder_copy_filldunder = Source.sig_dunder_copy_filldunder ∧ Gen.C02.body_dunder_copy_filldunder = Source.body_dunder_copy_filldunder := ⟨rfl, rfl⟩
+theorem C02_gen_fn_offset_indices : Gen.C02.sig_offset_indices = Source.sig_offset_indices ∧ Gen.C02.body_offset_indices = Source.body_offset_indices := ⟨rfl, rfl⟩
+theorem C02_gen_fn_as_array : Gen.C02.sig_as_array = Source.sig_as_array ∧ Gen.C02.body_as_array = Source.body_as_array := ⟨rfl, rfl⟩
+theorem C02_gen_fn_as_set : Gen.C02.sig_as_set = Source.sig_as_set ∧ Gen.C02.body_as_set = Source.body_as_set := ⟨rfl, rfl⟩
+theorem C02_gen_fn_as_graph : Gen.C02.sig_as_graph = Source.sig_as_graph ∧ Gen.C02.body_as_graph = Source.body_as_graph := ⟨rfl, rfl⟩
+theorem C02_gen_fn_remove_aromaticity : Gen.C02.sig_remove_aromaticity = Source.sig_remove_aromaticity ∧ Gen.C02.body_remove_aromaticity = Source.body_remove_aromaticity := ⟨rfl, rfl⟩
+theorem C02_gen_fn_remove_bond_order : Gen.C02.sig_remove_bond_order = Source.sig_remove_bond_order ∧ Gen.C02.body_remove_bond_order = Source.body_remove_bond_order := ⟨rfl, rfl⟩
+theorem C02_gen_fn_get_atom_count : Gen.C02.sig_get_atom_count = Source.sig_get_atom_count ∧ Gen.C02.body_get_atom_count = Source.body_get_atom_count := ⟨rfl, rfl⟩
+theorem C02_gen_fn_get_bond_count : Gen.C02.sig_get_bond_count = Source.sig_get_bond_count ∧ Gen.C02.body_get_bond_count = Source.body_get_bond_count := ⟨rfl, rfl⟩
+theorem C02_gen_fn_get_bonds : Gen.C02.sig_get_bonds = Source.sig_get_bonds ∧ Gen.C02.body_get_bonds = Source.body_get_bonds := ⟨rfl, rfl⟩
+theorem C02_gen_fn_get_all_bonds : Gen.C02.sig_get_all_bonds = Source.sig_get_all_bonds ∧ Gen.C02.body_get_all_bonds = Source.body_get_all_bonds := ⟨rfl, rfl⟩
+theorem C02_gen_fn_adjacency_matrix : Gen.C02.sig_adjacency_matrix = Source.sig_adjacency_matrix ∧ Gen.C02.body_adjacency_matrix = Source.body_adjacency_matrix := ⟨rfl, rfl⟩
+theorem C02_gen_fn_bond_type_matrix : Gen.C02.sig_bond_type_matrix = Source.sig_bond_type_matrix ∧ Gen.C02.body_bond_type_matrix = Source.body_bond_type_matrix := ⟨rfl, rfl⟩
+theorem C02_gen_fn_add_bond : Gen.C02.sig_add_bond = Source.sig_add_bond ∧ Gen.C02.body_add_bond = Source.body_add_bond := ⟨rfl, rfl⟩
+theorem C02_gen_fn_remove_bond : Gen.C02.sig_remove_bond = Source.sig_remove_bond ∧ Gen.C02.body_remove_bond = Source.body_remove_bond := ⟨rfl, rfl⟩
+theorem C02_gen_fn_remove_bonds_to : Gen.C02.sig_remove_bonds_to = Source.sig_remove_bonds_to ∧ Gen.C02.body_remove_bonds_to = Source.body_remove_bonds_to := ⟨rfl, rfl⟩
+theorem C02_gen_fn_remove_bonds : Gen.C02.sig_remove_bonds = Source.sig_remove_bonds ∧ Gen.C02.body_remove_bonds = Source.body_remove_bonds := ⟨rfl, rfl⟩
+theorem C02_gen_fn_merge : Gen.C02.sig_merge = Source.sig_merge ∧ Gen.C02.body_merge = Source.body_merge := ⟨rfl, rfl⟩
+theorem C02_gen_fn_dunder_adddunder : Gen.C02.sig_dunder_adddunder = Source.sig_dunder_adddunder ∧ Gen.C02.body_dunder_adddunder = Source.body_dunder_adddunder := ⟨rfl, rfl⟩
+theorem C02_gen_fn_dunder_getitemdunder : Gen.C02.sig_dunder_getitemdunder = Source.sig_dunder_getitemdunder ∧ Gen.C02.body_dunder_getitemdunder = Source.body_dunder_getitemdunder := ⟨rfl, rfl⟩
+theorem C02_gen_fn_dunder_iterdunder : Gen.C02.sig_dunder_iterdunder = Source.sig_dunder_iterdunder ∧ Gen.C02.body_dunder_iterdunder = Source.body_dunder_iterdunder := ⟨rfl, rfl⟩
+theorem C02_gen_fn_dunder_strdunder : Gen.C02.sig_dunder_strdunder = Source.sig_dunder_strdunder ∧ Gen.C02.body_dunder_strdunder = Source.body_dunder_strdunder := ⟨rfl, rfl⟩
+theorem C02_gen_fn_dunder_eqdunder : Gen.C02.sig_dunder_eqdunder = Source.sig_dunder_eqdunder ∧ Gen.C02.body_dunder_eqdunder = Source.body_dunder_eqdunder := ⟨rfl, rfl⟩
+theorem C02_gen_fn_dunder_containsdunder : Gen.C02.sig_dunder_containsdunder = Source.sig_dunder_containsdunder ∧ Gen.C02.body_dunder_containsdunder = Source.body_dunder_containsdunder := ⟨rfl, rfl⟩
+theorem C02_gen_fn_get_max_bonds_per_atom : Gen.C02.sig_get_max_bonds_per_atom = Source.sig_get_max_bonds_per_atom ∧ Gen.C02.body_get_max_bonds_per_atom = Source.body_get_max_bonds_per_atom := ⟨rfl, rfl⟩
+theorem C02_gen_fn_remove_redundant_bonds : Gen.C02.sig_remove_redundant_bonds = Source.sig_remove_redundant_bonds ∧ Gen.C02.body_remove_redundant_bonds = Source.body_remove_redundant_bonds := ⟨rfl, rfl⟩
+theorem C02_gen_fn_to_positive_index : Gen.C02.sig_to_positive_index = Source.sig_to_positive_index ∧ Gen.C02.body_to_positive_index = Source.body_to_positive_index := ⟨rfl, rfl⟩
+theorem C02_gen_fn_to_positive_index_array : Gen.C02.sig_to_positive_index_array = Source.sig_to_positive_index_array ∧ Gen.C02.body_to_positive_index_array = Source.body_to_positive_index_array := ⟨rfl, rfl⟩
+theorem C02_gen_fn_to_index_array : Gen.C02.sig_to_index_array = Source.sig_to_index_array ∧ Gen.C02.body_to_index_array = Source.body_to_index_array := ⟨rfl, rfl⟩
+theorem C02_gen_fn_in_array : Gen.C02.sig_in_array = Source.sig_in_array ∧ Gen.C02.body_in_array = Source.body_in_array := ⟨rfl, rfl⟩
+theorem C02_gen_fn_sort : Gen.C02.sig_sort = Source.sig_sort ∧ Gen.C02.body_sort = Source.body_sort := ⟨rfl, rfl⟩
+theorem C02_gen_fn_invert_index : Gen.C02.sig_invert_index = Source.sig_invert_index ∧ Gen.C02.body_invert_index = Source.body_invert_index := ⟨rfl, rfl⟩
+
+/-- C widths: the scalar atom-index parameters are `int32`, atom counts `uint32`, the offset a C `int`; the model's
+argument conversion `toInt32` accepts exactly the `int32` range, `posIndex32`/`newBLFull` refuse exactly beyond the
+`uint32` range, `offsetIndices` refuses exactly outside the `int` range. -/
+theorem C02_gen_param_types :
+    Gen.C02.sig_get_bonds.2.2.map (·.2.1) = ["", "int32"] ∧
+    Gen.C02.sig_add_bond.2.2.map (·.2.1) = ["", "int32", "int32", ""] ∧
+    Gen.C02.sig_remove_bond.2.2.map (·.2.1) = ["", "int32", "int32"] ∧
+    Gen.C02.sig_remove_bonds_to.2.2.map (·.2.1) = ["", "int32"] ∧
+    Gen.C02.sig_to_positive_index = ("uint32", "except-1", [("a0", "int32", ""), ("a1", "uint32", "")]) ∧
+    Gen.C02.sig_dunder_initdunder.2.2.map (·.2.1) = ["", "uint32", "np.ndarray"] ∧
+    Gen.C02.sig_offset_indices.2.2.map (·.2.1) = ["", "int"] ∧
+    Gen.C02.sig_invert_index.2.2.map (·.2.1) = ["IndexType[:]", "uint32"] ∧
+    Source.ctypeRange "int32" = some (-2147483648, 2147483647) ∧ Source.ctypeRange "uint32" = some (0, 4294967295) ∧
+    (∀ i : Int, (∃ v, toInt32 i = .ok v) ↔ (-2147483648 ≤ i ∧ i ≤ 2147483647)) ∧
+    BitVec.ofInt 32 (-1) = sentinel := by
+  refine ⟨rfl, rfl, rfl, rfl, rfl, rfl, rfl, rfl, rfl, rfl, fun i => ?_, by decide⟩
+  unfold toInt32
+  constructor
+  · rintro ⟨v, h⟩
+    split at h
+    · assumption
+    · cases h
+  · intro h; exact ⟨_, by rw [if_pos h]⟩
+
+/-- Default arguments the adapter and the protocol rely on: `add_bond(i, j)` uses `BondType.ANY`, which is `0`
+(the `add2` op is `Op.add i j 0`); `BondList(n)` has `bonds=None` (the `@none` spelling → the empty list). -/
+theorem C02_gen_defaults :
+    Gen.C02.sig_add_bond.2.2.map (·.2.2) = ["", "", "", "BondType.ANY"] ∧
+    Gen.C02.bondTypes.lookup "ANY" = some 0 ∧
+    Gen.C02.sig_dunder_initdunder.2.2.map (·.2.2) = ["", "", "None"] ∧
+    newBLFull 5 true [] none = .ok (BL.empty 5) := by
+  decide
+
+/-- Exception classes: what each modelled function raises itself is what the model returns for that refusal
+(`Err.toString` of the model's constructors, in source order). -/
+theorem C02_gen_exception_classes :
+    Gen.C02.raises_dunder_initdunder = [Err.valueError, .valueError, .valueError].map Err.toString ∧
+    Gen.C02.raises_add_bond = [Err.valueError].map Err.toString ∧
+    Gen.C02.raises_offset_indices = [Err.valueError].map Err.toString ∧
+    Gen.C02.raises_to_positive_index = [Err.indexError, .indexError].map Err.toString ∧
+    Gen.C02.raises_to_positive_index_array = [Err.indexError, .indexError].map Err.toString ∧
+    Gen.C02.raises_invert_index = [Err.notImplemented].map Err.toString ∧
+    Gen.C02.raises_dunder_iterdunder = [Err.typeError].map Err.toString ∧
+    Gen.C02.raises_dunder_containsdunder = [Err.typeError].map Err.toString ∧
+    Gen.C02.raises_get_bonds = [] ∧ Gen.C02.raises_remove_bond = [] ∧ Gen.C02.raises_remove_bonds_to = [] ∧
+    Gen.C02.raises_merge = [] ∧ Gen.C02.raises_concatenate = [] ∧ Gen.C02.raises_dunder_getitemdunder = [] := by
   decide
 
 /-! ## Non-vacuity -/
